@@ -8,6 +8,9 @@ M2 (spec->code)  : the same TLC run exports the cases; `vdrive scenario` renders
                    through HCL), builds the REAL provider + gun through the registered factories and runs a
                    real engine against a scripted in-process target; TraceScenario.tla compares the ordered
                    request log, the samples and the ring with Expected(case) computed by the specification.
+Processors       : ScenarioProc.tla computes, on character sequences, what var/header (modifier chains), var/jsonpath, var/xpath capture from
+                   a response letter, whether assert/response (headers / body / status_code / size) holds and what the next step renders;
+                   `vdrive scenproc` runs one scenario per TLC-generated case through the real gun; TraceScenarioProc.tla compares the texts.
 M1 (code->spec)  : 4 instances on one shared [next] iterator; TraceScenario.NextRowsOK on the rows seen.  First-access
                    contention: 120 short runs (fresh provider each) of 8 instances that meet at a spin barrier in front
                    of every step's real preprocessor, so that the first [next] look-up of each path is simultaneous.
@@ -288,7 +291,10 @@ def run(tier, v):
         "design level exhaustive within: <= 3 listed requests, multiplicities 1..3, sleeps 0/3/4 ms, 9 flow profiles, "
         "scripts ok / transport@k / status 418@k / truncated body@k / clean close without a response byte@k for every k of the first shot + 1, 2 shots; weights in {1,2,3,4,6} for 1..3 scenarios",
         "the replayed subset of the flow cases is chosen by id modulo (seeded); ring, iter and next cases are all replayed",
-        "pauses are checked one-sidedly (>= requested); min_waiting_time, [rand] and the html templater are not modelled",
+        "pauses and min_waiting_time are checked one-sidedly (gap / shot span >= requested); the expanded step list of the real provider (name, pause per step) exactly; "
+        "[rand] and randInt / randString / uuid only by shape and range",
+        "processors: 862 cases (response letters x var/header modifier chains, var/jsonpath, var/xpath, assert/response predicates, chains of them, variable functions); "
+        "quick replays every second one; substr only inside its pinned range",
         "trusted: renderer and recorder (harness/cmd/vdrive/scenario.go, harness/internal/scentarget)"]
 
 
@@ -330,7 +336,9 @@ MANIFEST = dict(
          "exported case is rendered to the real payload format and executed by the real code, so a divergence in order, "
          "multiplicity, variable flow, failure handling, weights or [next] sharing shows up as a rejected observation.",
     note="bounds: <= 3 listed requests x multiplicity 1..3, 9 flow profiles, 2 shots, 1 failure per run (quick: representative "
-         "shapes for lists of 2 and 3, failure positions <= 5; a seeded 1/7 of the flow cases is replayed, 1/3 in thorough); pauses "
-         "one-sided; ring order inside a cycle not demanded; a missing template variable is '<no value>', not a failure; [rand], "
-         "min_waiting_time not covered; grpc/scenario gun and html templater are dimensions of the case space; renderer/recorder trusted",
+         "shapes for lists of 2 and 3, failure positions <= 5; a seeded 1/14 of the flow cases is replayed, 1/3 in thorough); pauses and "
+         "min_waiting_time one-sided; ring order inside a cycle not demanded; a missing template variable is '<no value>', not a failure; "
+         "data sources are csv / nested json / variables lists with [next] (counter per full path), [last], [rand], integer indexes; "
+         "processors (ScenarioProc.tla) as functions on character sequences over a response alphabet of 30 letters; random functions by "
+         "shape only; grpc/scenario gun and html templater are dimensions of the case space; renderer/recorder trusted",
 )
